@@ -35,6 +35,17 @@ def texts(rng, n):
         yield gen822.render(lines, rng)
 
 
+def repeats(rng, n):
+    """repeated names whose multi-line values overlap: equal first lines with different continuations, different first lines
+    with equal continuations, a value that is a prefix / a line subset of an earlier one"""
+    for _ in range(n):
+        lines = []
+        for _ in range(rng.randint(2, 5)):
+            lines.append('%s: %s' % (rng.choice(('a', 'a', 'A', 'b', 'Checksums')), rng.choice(('1', '1', '2', 'first', ''))))
+            lines.extend(rng.choice((' cont', ' cont', ' 0 common-file', ' .', '\tcont')) for _ in range(rng.choice((0, 1, 1, 2, 3))))
+        yield gen822.render(lines, rng)
+
+
 def pairs_family():
     names = ['a', 'A', 'b', 'B']
     values = ['1', '2', 'x y']
@@ -97,4 +108,5 @@ def streams(tier, rng):
     L = 3 if tier == 'quick' else 4
     yield {'name': 'exhaustive-lines<=%d' % L, 'op': 'C08', 'cases': gen822.exhaustive(L, rng), 'exhaustive': True}
     yield {'name': 'vocabulary-texts', 'op': 'C08', 'cases': texts(rng, 20000 if tier == 'quick' else 300000)}
+    yield {'name': 'repeated-names-overlapping-values', 'op': 'C08', 'cases': repeats(rng, 4000 if tier == 'quick' else 60000)}
     yield {'name': 'random-822', 'op': 'C08', 'cases': (gen822.random_text(rng, 10) for _ in range(5000 if tier == 'quick' else 80000))}
